@@ -43,6 +43,9 @@ def private_cppcheck():
     global _PRIVATE
     if _PRIVATE:
         return _PRIVATE
+    if os.environ.get("CPROBE_CPPCHECK"):
+        _PRIVATE = os.environ["CPROBE_CPPCHECK"]
+        return _PRIVATE
     src_dir = os.path.dirname(vlib.cppcheck_bin())
     dst_dir = vlib.mktmp("cppcheck-bin")
     last = ""
